@@ -97,20 +97,32 @@ def _exec_chunk(args):
 DEVS_USED = set()
 
 
+def _content_file(tag, text):
+    """a small read-only input file named by its content (shared by all runs; nothing accumulates)"""
+    import hashlib
+    d = os.path.join(os.environ.get('VERIF_TMP', '/tmp'), 'verif-inputs')
+    os.makedirs(d, exist_ok=True)
+    p = os.path.join(d, '%s-%s.ndjson' % (tag, hashlib.md5(text.encode()).hexdigest()[:12]))
+    if not os.path.exists(p):
+        t = '%s.%d' % (p, os.getpid())
+        with open(t, 'w') as f:
+            f.write(text)
+        os.rename(t, p)
+    return p
+
+
 def devs_file():
     """file listing the known-defect deviations the trace specs may use (open findings only)"""
-    p = os.path.join(os.environ.get('VERIF_TMP', '/tmp'), 'verif-devs-%d.ndjson' % os.getpid())
-    with open(p, 'w') as f:
-        for k in load_known():
-            if k.get('status') == 'open' and k.get('deviation') and not os.environ.get('VERIF_NO_DEVS'):
-                f.write(json.dumps({'dev': k['deviation']}) + '\n')
-    return p
+    text = ''
+    for k in load_known():
+        if k.get('status') == 'open' and k.get('deviation') and not os.environ.get('VERIF_NO_DEVS'):
+            text += json.dumps({'dev': k['deviation']}) + '\n'
+    return _content_file('devs', text)
 
 
 def empty_devs_file():
-    p = os.path.join(os.environ.get('VERIF_TMP', '/tmp'), 'verif-nodevs-%d.ndjson' % os.getpid())
-    open(p, 'w').close()
-    return p
+    return _content_file('nodevs', '')
+
 
 
 class TlcEvalError(Exception):
